@@ -14,6 +14,7 @@ import (
 	"go.dedis.ch/kyber/v4/compatible/compatiblemod"
 	"go.dedis.ch/kyber/v4/util/random"
 	"math/big"
+	"strings"
 	"sync"
 	"testing"
 
@@ -89,7 +90,46 @@ func c20Shared(gi *GroupInfo, seed string) (P, Q kyber.Point, k kyber.Scalar) {
 	Q = g.Point().Mul(g.Scalar().Add(a, g.Scalar().One()), B)
 	markVT(gi, P)
 	markVT(gi, Q)
+	if strings.HasSuffix(seed, "/decoded") {
+		// the other way a shared value comes into being: decoded from bytes (points in affine form;
+		// the scalar, where the decoder takes it, from an UNREDUCED encoding k+q - a lazily reducing
+		// accessor would write into the shared object)
+		P = decodeTwin(gi, P)
+		Q = decodeTwin(gi, Q)
+		var kb []byte
+		if kv := new(big.Int).Add(scalarToBig(k), gi.Order); kv.BitLen() <= 8*g.ScalarLen() {
+			kb = bigToBytes(kv, g.ScalarLen(), gi.LE)
+		}
+		// accepted and denoting the same residue (judged on a throw-away decode: Equal may compare
+		// representations, and the accessors under test must see an untouched object)
+		probe, k2 := g.Scalar(), g.Scalar()
+		want, _ := k.MarshalBinary()
+		if kb != nil && safely(func() {
+			if probe.UnmarshalBinary(kb) != nil || k2.UnmarshalBinary(kb) != nil {
+				k2 = nil
+			} else if got, _ := probe.MarshalBinary(); !bytes.Equal(got, want) {
+				k2 = nil
+			}
+		}) == "" && k2 != nil {
+			k = k2
+		} else {
+			k2 := g.Scalar()
+			b, _ := k.MarshalBinary()
+			if k2.UnmarshalBinary(b) == nil {
+				k = k2
+			}
+		}
+	}
 	return
+}
+
+func decodeTwin(gi *GroupInfo, p kyber.Point) kyber.Point {
+	b, err := p.MarshalBinary()
+	q := gi.G.Point()
+	if err != nil || q.UnmarshalBinary(b) != nil {
+		return p
+	}
+	return markVT(gi, q)
 }
 
 func c20Iters(gi *GroupInfo) (goroutines, iters int) {
@@ -175,7 +215,32 @@ func TestC20_Table(t *testing.T) {
 			}
 		}
 	}
-	ev.Exhaustive("group x unordered pair of read-only methods (each pair on a fresh shared value built by arithmetic)")
+	// the same methods, each against itself, on shared values that were DECODED from bytes (scalar from an
+	// unreduced encoding where accepted): two goroutines in the same lazily-normalising accessor race
+	for gidx, gi := range groups {
+		if !mine(gidx) {
+			continue
+		}
+		gi := gi
+		seed := fmt.Sprintf("%d/decoded", envInt("VERIF_SEED", 1))
+		P0, Q0, k0 := c20Shared(gi, seed)
+		twin := c20PointMethods(gi, P0, Q0, k0)
+		gr, it := c20Iters(gi)
+		for i := range twin {
+			i := i
+			want := twin[i].f()
+			name := fmt.Sprintf("%s/decoded/%s", gi.Name, twin[i].name)
+			t.Run(name, func(t *testing.T) {
+				Pp, Qp, kp := c20Shared(gi, seed)
+				m := c20PointMethods(gi, Pp, Qp, kp)[i]
+				if mm := runConcurrent([]roMethod{m, m}, []string{want, want}, gr, it); mm != "" {
+					violationOrKnown(t, ev, "C20/"+gi.Name+"/result-mismatch", "concurrent read-only use changed a result: %s", mm)
+				}
+			})
+			ev.Case(true, name, "race-table-decoded:"+gi.Name)
+		}
+	}
+	ev.Exhaustive("group x unordered pair of read-only methods (each pair on a fresh shared value built by arithmetic); group x method on shared values decoded from bytes")
 }
 
 // c20SchemeMethods: read-only uses of shared scheme objects.
